@@ -206,4 +206,111 @@ def Doc.valid (k : Kind) : Doc → Bool
   | .obj tops => topsValid k tops
   | _ => false
 
+
+/-! ## the per-key dispatch with typed effects: which field of the flow every primitive step writes
+
+  `Doc.ops` transcribes the `if/elif` chains of `FlowHandler.put`: for every key that dispatches to a setter, the
+  field it targets and the kind of write (`setattr(msg, k, conv(v))`, `headers.clear()`, `headers.add(*pair)`).
+  `interp` is what those writes leave in the fields.  A field value is symbolic: `orig` (what the flow had before the
+  session), `scalar id` (the converted document value written by effect `id`) or `pairs ids` (a header list made of
+  the pairs added by effects `ids`).  Side effects of the library setters on *other* fields (Host header after a
+  host/port change, Content-Length after a content change) are outside this model. -/
+
+inductive Field
+  | reqMethod | reqScheme | reqHost | reqPath | reqVersion | reqPort | reqHeaders | reqTrailers | reqContent
+  | respReason | respVersion | respCode | respHeaders | respTrailers | respContent | marked | comment
+deriving DecidableEq, Repr
+
+inductive FVal
+  | orig | scalar (id : Nat) | pairs (ids : List Nat)
+deriving DecidableEq, Repr
+
+inductive Op
+  | set (id : Nat)        -- `setattr(message, key, converted value)` / `flow.marked = b` / `flow.comment = b`
+  | clear (id : Nat)      -- `headers.clear()` (or a fresh `Headers()` for absent trailers)
+  | add (id : Nat)        -- `headers.add(*pair)`
+deriving DecidableEq, Repr
+
+def Op.id : Op → Nat
+  | .set i | .clear i | .add i => i
+
+abbrev Fields := Field → FVal
+
+def Fields.put (fs : Fields) (f : Field) (v : FVal) : Fields := fun g => if g = f then v else fs g
+
+/-- request branch: `k in [method, scheme, host, path, http_version]`, `port`, `headers`, `trailers`, `content` -/
+def reqField : Key → Option Field
+  | .method => some .reqMethod | .scheme => some .reqScheme | .host => some .reqHost | .path => some .reqPath
+  | .httpVersion => some .reqVersion | .port => some .reqPort | .headers => some .reqHeaders
+  | .trailers => some .reqTrailers | .content => some .reqContent
+  | _ => none
+
+/-- response branch: `reason`, `http_version`, `code`, `headers`, `trailers`, `content` -/
+def respField : Key → Option Field
+  | .reason => some .respReason | .httpVersion => some .respVersion | .code => some .respCode
+  | .headers => some .respHeaders | .trailers => some .respTrailers | .content => some .respContent
+  | _ => none
+
+def Key.isList : Key → Bool
+  | .headers | .trailers => true
+  | _ => false
+
+def scalarOps (f : Field) : List Step → List (Field × Op)
+  | [] => []
+  | .eff i :: r => (f, .set i) :: scalarOps f r
+  | .fail :: r => scalarOps f r
+
+def addOps (f : Field) : List Step → List (Field × Op)
+  | [] => []
+  | .eff i :: r => (f, .add i) :: addOps f r
+  | .fail :: r => addOps f r
+
+/-- `headers.clear()` then one `add` per pair -/
+def listOps (f : Field) : List Step → List (Field × Op)
+  | [] => []
+  | .eff i :: r => (f, .clear i) :: addOps f r
+  | .fail :: r => listOps f r
+
+def leafOps (field : Key → Option Field) (l : Leaf) : List (Field × Op) :=
+  match field l.key with
+  | some f => if l.key.isList then listOps f l.steps else scalarOps f l.steps
+  | none => []
+
+def leavesOps (field : Key → Option Field) : List Leaf → List (Field × Op)
+  | [] => []
+  | l :: r => leafOps field l ++ leavesOps field r
+
+def Top.ops : Top → List (Field × Op)
+  | .request (some ls) => leavesOps reqField ls
+  | .response (some ls) => leavesOps respField ls
+  | .marked st => scalarOps .marked st
+  | .comment st => scalarOps .comment st
+  | _ => []
+
+def topsOps : List Top → List (Field × Op)
+  | [] => []
+  | t :: r => t.ops ++ topsOps r
+
+/-- the typed writes of a document, in document order -/
+def Doc.ops : Doc → List (Field × Op)
+  | .obj tops => topsOps tops
+  | _ => []
+
+def applyOp (fs : Fields) (w : Field × Op) : Fields :=
+  match w.2 with
+  | .set i => fs.put w.1 (.scalar i)
+  | .clear _ => fs.put w.1 (.pairs [])
+  | .add i =>
+    match fs w.1 with
+    | .pairs l => fs.put w.1 (.pairs (l ++ [i]))
+    | _ => fs.put w.1 (.pairs [i])
+
+def interp (fs : Fields) : List (Field × Op) → Fields
+  | [] => fs
+  | w :: r => interp (applyOp fs w) r
+
+/-- `FlowHandler.put` on the fields: commit every write of a valid document, else leave everything as it was -/
+def putF (k : Kind) (fs : Fields) (d : Doc) : Status × Fields :=
+  if d.valid k then (.ok, interp fs d.ops) else (.refused400, fs)
+
 end MitmVerif.C47
